@@ -518,6 +518,60 @@ func e14TwoBuildersCase(seed uint64, n int) Case {
 	}}
 }
 
+
+// e14FloodCase: relisting under a flood of watch events that outruns the watcher
+// (it is held at its log points): bursts of 150 events arrive between and across
+// the relists.  The controller keeps listing at its period and still shuts down.
+func e14FloodCase(seed uint64, n int) Case {
+	id := fmt.Sprintf("E14/event-flood/%d/%d", seed, n)
+	return Case{ID: id, Desc: map[string]interface{}{"n": n, "what": "bursts of 150 watch events against a slowed watcher, across relists"}, Bubble: true, Run: func(r *Res) {
+		rng := kit.NewRng(kit.Mix(seed, uint64(n)+1440))
+		hold := []time.Duration{500 * time.Microsecond, 2 * time.Millisecond, 4 * time.Millisecond}[n%3]
+		core := kit.NewCore(&kit.Plan{Seed: rng.U64(), PYield: 100, Targets: map[string]time.Duration{"watcher|": hold}})
+		srv := kit.NewPodServer(core)
+		srv.Put(kit.Pod("n0", "a", "", nil))
+		P := time.Second
+		g, err := newCtlRig(core, srv, P, nil)
+		if err != nil {
+			r.Inc(err.Error())
+			return
+		}
+		if !waitCh(g.ctl.Ready(), virtBound) {
+			r.V("C13", "never-ready", "controller not ready")
+			return
+		}
+		start := time.Now()
+		for round := 0; round < 12; round++ {
+			for i := 0; i < 150; i++ {
+				srv.Put(kit.Pod("n0", fmt.Sprintf("p%d", i%9), "", map[string]string{"l": "x"}))
+			}
+			time.Sleep(time.Duration(300+rng.Intn(600)) * time.Millisecond)
+		}
+		T := time.Since(start)
+		lists := srv.Lists()
+		min := int(T/(P+P/10+time.Millisecond)) - 1
+		r.Add("lists", int64(len(lists)))
+		r.Add("count-checks", 1)
+		if len(lists) < min {
+			r.V("C13", "relisting-stopped", "under bursts of 150 watch events (watcher held %v at its log points) only %d list calls were issued in %v (period %v): at least %d expected\n%s", hold, len(lists), T, P, min, kit.CensusText(kit.Census(), 10))
+			g.cancel()
+			return
+		}
+		closed := time.Now()
+		if !within(func() { g.ctl.Close() }) || !waitCh(g.ctl.Done(), virtBound) {
+			r.V("C13", "shutdown-hang", "controller under an event flood: Close() did not complete\n%s", kit.CensusText(kit.Census(), 10))
+			g.cancel()
+			return
+		}
+		if took := time.Since(closed) - core.Injected(); took > 2*time.Second {
+			r.V("C13", "shutdown-slow", "controller under an event flood took %v of virtual time to stop", time.Since(closed))
+		}
+		g.cancel()
+		core.Barrier()
+		r.Key(id)
+	}}
+}
+
 func init() {
 	register("E14", func(tier string, seed uint64) []Case {
 		var cases []Case
@@ -541,6 +595,9 @@ func init() {
 			}
 			for i := 0; i < 4; i++ {
 				cases = append(cases, e14TwoBuildersCase(seed+uint64(rep), i))
+			}
+			for i := 0; i < 6; i++ {
+				cases = append(cases, e14FloodCase(seed+uint64(rep), i))
 			}
 		}
 		periods := []time.Duration{time.Second, 10 * time.Second, time.Minute}
